@@ -297,3 +297,18 @@ func ClockNow() time.Time {
 }
 
 func ClockNano() uint64 { return popClock("nano") }
+
+// HashLookup: the model's digest for this hash application, if the symbolic path made it
+// (uninterpreted there); otherwise the caller computes the real hash.
+func HashLookup(name string, data []byte) ([]byte, bool) {
+	ab := append([]byte{byte(len(data))}, data...)
+	h, ok := ufs["hash:"+name+":"+hex.EncodeToString(ab)]
+	if !ok {
+		return nil, false
+	}
+	b, err := hex.DecodeString(h)
+	if err != nil {
+		return nil, false
+	}
+	return b, true
+}
